@@ -68,7 +68,7 @@ def verify_into(ctx, files: list[str], targets: list[str] | None = None, *, time
         targets = [t for t in targets if t in sess.contracts]
     tier = ctx.tier
     if timeout_ms is None:
-        timeout_ms = 15_000 if tier == "quick" else 60_000
+        timeout_ms = 30_000 if tier == "quick" else 60_000
     all_obls: list[Obligation] = []
     per_fn: dict[str, dict] = {}
     for t in targets:
